@@ -196,7 +196,50 @@ def check_pwl_multipliers():
                               'mmap[c].value()': got, 'expected': w})
 
 
+def check_pwl_objective():
+    """piecewise-linear objectives with known optimal values (the epigraph
+    conversion of the objective in _inmatrixform)"""
+    from cvxopt import solvers
+    from cvxopt.modeling import max as mmax, sum as msum
+    solvers.options['show_progress'] = False
+    x = variable(1, 'x')
+    y = variable(3, 'y')
+    v = matrix([1.0, 2.0, 3.0])
+    cases = [
+        ('|x-1| + |x+1|', lambda: op(mmax(x - 1, 1 - x) + mmax(x + 1, -x - 1)),
+         2.0),
+        ('sum(max(x, v)), x >= 0', lambda: op(msum(mmax(x, v)), [x >= 0]),
+         6.0),
+        ('sum(max(v, x)) + x, x >= -10', lambda: op(msum(mmax(v, x)) + x,
+                                                    [x >= -10]), -4.0),
+        ('max(y), y >= v', lambda: op(mmax(y), [y >= v]), 3.0),
+        ('sum(max(y, -y)) + max(y - v), -1 <= y', lambda: op(
+            msum(mmax(y, -y)) + mmax(y - v), [y >= -1]), -1.0),
+        ('max(x, 2x, -x) + sum(max(y, 0)), y >= -v', lambda: op(
+            mmax(x, 2 * x, -x) + msum(mmax(y, 0)), [y >= -v]), 0.0)]
+    for name, mk, want in cases:
+        for fmt in ('dense', 'sparse'):
+            p = mk()
+            try:
+                p.solve(fmt)
+            except Exception as e:
+                fail('assembly', {'case': 'pwl objective ' + name,
+                                  'format': fmt, 'raised': repr(e)})
+                continue
+            got = p.objective.value()
+            if p.status != 'optimal' or got is None or abs(
+                    got[0] - want) > 1e-5:
+                fail('assembly', {'case': 'pwl objective ' + name,
+                                  'format': fmt, 'status': p.status,
+                                  'optimal value': None if got is None else
+                                  got[0], 'expected': want})
+
+
 check_assembly()
+try:
+    check_pwl_objective()
+except Exception as e:
+    fail('assembly', {'pwl objective exception': repr(e)})
 try:
     check_pwl_multipliers()
 except Exception as e:
